@@ -7,16 +7,18 @@ EXTENDS MC_Conn, Json, SequencesExt
 
 CONSTANT MODE     \* "c05" | "c06"
 Extras == [z : BOOLEAN, mark : BOOLEAN, many : BOOLEAN]
-\* C05: one segment per request
-AlignedCuts(rs) == {EndPos(rs, k) : k \in 1..(Len(rs) - 1)}
-
 \* C06: a refused request may sit anywhere in the sequence and share a segment with what came before it, but a segment ends where it
 \* ends (where a refused request ends is not defined by its bytes, so whatever is read together with it may go with it: outside the quantifier)
 BadEnds(rs) == {EndPos(rs, k) : k \in {j \in 1..(Len(rs) - 1) : rs[j].bad}}
+\* C05: one segment per request, or -- a pipelining client -- several whole requests in one segment (a request is never split here: that is
+\* C06's subject); a segment still ends where a refused request ends
+AlignedCuts(rs) == {EndPos(rs, k) : k \in 1..(Len(rs) - 1)}
+WholeRequestCuts(rs) == {c \in SUBSET AlignedCuts(rs) : BadEnds(rs) \subseteq c}
+
 GChooseReqs == /\ pc = "setup-reqs" /\ \E rs \in ReqSeqs : reqs' = rs
                /\ pc' = "setup-cuts" /\ UNCHANGED <<cuts, inbox, buf, cur, resp, dropped>>
 GChooseCuts == /\ pc = "setup-cuts"
-               /\ \E cs \in (IF MODE = "c05" THEN {AlignedCuts(reqs)} ELSE {c \in CutSets(Len(Stream(reqs)) - 1, MaxCuts) : BadEnds(reqs) \subseteq c}) :
+               /\ \E cs \in (IF MODE = "c05" THEN WholeRequestCuts(reqs) ELSE {c \in CutSets(Len(Stream(reqs)) - 1, MaxCuts) : BadEnds(reqs) \subseteq c}) :
                      (cuts' = cs /\ inbox' = Segments(reqs, cs))
                /\ pc' = "read" /\ UNCHANGED <<reqs, buf, cur, resp, dropped>>
 GNext == GChooseReqs \/ GChooseCuts \/ Step
